@@ -35,6 +35,10 @@ class Undecided(Exception):
     pass
 
 
+class Refuted(Undecided):
+    """the skip test is provably too weak: there are source values for which it accepts names composed from other values"""
+
+
 def parts_of(e, local_defs=None, depth=0):
     """string concatenation -> list of parts: member paths as tuples, literals as str"""
     e = unwrap_all_casts(e)
@@ -268,6 +272,8 @@ def validated(facts, cls, sources):
     for c in commits:
         why = _validates(c, values, sources, cached)
         if why is not None:
+            if why.startswith("REFUTED: "):
+                raise Refuted("%s line %s: %s" % (c.fn["qn"].split("::")[-1], c.ifnode.get("l"), why[9:]))
             raise Undecided("%s line %s: %s" % (c.fn["qn"].split("::")[-1], c.ifnode.get("l"), why))
     # functions that consist of a refresh and return a cached member
     refreshers = {}
@@ -359,6 +365,35 @@ def _validates(c, values, sources, cached):
     for m in equal:
         if len(values[m]) == 1 and isinstance(values[m][0], tuple):
             key_sources.add(values[m][0])
+    if not equal:
+        # a test that only looks at a prefix of the key (no length, no comparison of the rest) is not merely unproven, it is
+        # wrong: any name kept from an output whose name *starts with* the present one passes it
+        for m, ps in values.items():
+            prefix_only = False
+            constrained = False
+            for a in conj:
+                e = _eq(a)
+                if e is None:
+                    continue
+                for x, y in (e, e[::-1]):
+                    xc = unwrap_all_casts(x)
+                    if isinstance(xc, dict) and xc.get("k") == "MCall" and callee_name(xc) == "compare" and path(xc.get("recv")) == ("this", m) and \
+                            const_value(y) == 0 and len(xc.get("args", [])) == 3:
+                        off, ln, what = xc["args"]
+                        w = parts_of(what, ld)
+                        if _lin(off, ld) in ({}, {1: 0}) and len(w) == 1 and ps and w[0] == ps[0] and _lin(ln, ld) == _sizes([ps[0]]):
+                            prefix_only = True
+                        else:
+                            constrained = True
+                    lx = _lin(x, ld)
+                    if lx == {("size", ("this", m)): 1}:
+                        constrained = True
+                    px = path(unwrap_all_casts(x))
+                    if px == ("this", m) and _eq(a) is not None and not (isinstance(xc, dict) and xc.get("k") == "MCall"):
+                        constrained = True
+            if prefix_only and not constrained and len(ps) > 1:
+                return "REFUTED: the test that skips the refresh only compares the beginning of %s with %s: names composed for an earlier output " \
+                       "whose name starts with the present one (out.10 -> out.1) are taken for the present output's" % (m, ps[0][-1] if isinstance(ps[0], tuple) else ps[0])
     # every other member: an extension of a proved one, or built from sources that all have a proved key copy
     for m, ps in values.items():
         if m in equal:
